@@ -14,11 +14,14 @@ def skipUntilFF : List Nat → List Nat
   | b :: r => if b == 255 then r else skipUntilFF r
 
 /-- number of bytes a failing, prefix-monotone parse has pulled from its source: the least `k`
-    such that the parse of the first `k` bytes does not end in `eof` (searched upwards from `lo`) -/
-def consumedOnFail (parse : List Nat → Bool) (bytes : List Nat) : Nat → Nat → Nat
-  | 0, k => k
-  | fuel+1, k => if k ≥ bytes.length then bytes.length
-                 else if parse (bytes.take k) then k else consumedOnFail parse bytes fuel (k + 1)
+    such that the parse of the first `k` bytes does not end in `eof`; binary search between `lo`
+    (parse of `lo` bytes still ends in `eof`, or `lo` is the floor) and `hi` (does not) -/
+def consumedOnFail (parse : List Nat → Bool) (bytes : List Nat) : Nat → Nat → Nat → Nat
+  | 0, _, hi => hi
+  | fuel+1, lo, hi =>
+    if lo + 1 ≥ hi then (if parse (bytes.take lo) then lo else hi)
+    else if parse (bytes.take ((lo + hi) / 2)) then consumedOnFail parse bytes fuel lo ((lo + hi) / 2)
+    else consumedOnFail parse bytes fuel ((lo + hi) / 2) hi
 
 def isEof : Res α → Bool
   | .error .eof => true
@@ -37,11 +40,11 @@ deriving Repr
 
 /-- bytes pulled from `cand` by a failing subset-header parse -/
 def hdrConsumed (cand : List Nat) : Nat :=
-  consumedOnFail (fun pre => !isEof (subsetHeader pre)) cand 20 2
+  consumedOnFail (fun pre => !isEof (subsetHeader pre)) cand 64 (min 2 cand.length) (min 20 cand.length)
 
 /-- bytes pulled from `cand` by a failing frame decode -/
 def bodyConsumed (p : Profile) (cand : List Nat) : Nat :=
-  consumedOnFail (fun pre => !isEof (decodeFrame p none pre)) cand (cand.length + 1) 2
+  consumedOnFail (fun pre => !isEof (decodeFrame p none pre)) cand 64 (min 2 cand.length) cand.length
 
 /-- one call of `read()`: the result and the unconsumed rest of the input -/
 def streamReadOne (p : Profile) : Nat → List Nat → ReadResult × List Nat
